@@ -2,6 +2,7 @@
 # try_seed.sh <prop> <patch.diff> : apply a seeded change to /repo, run the property's quick check, undo.
 prop=$1; patch=$2
 cd /repo || exit 2
+if [ -n "$(git status --porcelain)" ]; then echo "REFUSING: /repo has uncommitted changes (commit contract edits first)"; exit 2; fi
 git apply --check "$patch" || { echo "patch does not apply"; exit 2; }
 git apply "$patch"
 cd /verif && ./check $prop --tier quick --no-evidence 2>&1 | grep -v "^  proved\|cover:sat" | tail -15
